@@ -92,6 +92,16 @@ def specs(tier):
                 spec['omen'] = dict(R.DEFAULT_OMEN, omen_prob=op)
                 yield spec
 
+    # lengths of three digits next to lengths that are their first one / two digits
+    wide = dict(TERMINALS[0])
+    wide['D'] = {1: [('7', .5), ('8', .5)], 10: [('1234567890', .6), ('0987654321', .4)], 100: [('3074185296' * 10, 1.0)], 101: [('5' * 101, .5), ('6' * 101, .5)]}
+    wide['A'] = {1: [('a', 1.0)], 10: [('abcdefghij', 1.0)], 105: [('k' * 105, 1.0)]}
+    wide['C'] = {1: [('L', .5), ('U', .5)], 10: [('L' * 10, .6), ('U' + 'L' * 9, .4)], 105: [('L' * 105, 1.0)]}
+    for gr in ([('D100', .4), ('D10', .3), ('D1', .3)], [('A105D1', .5), ('A10D101', .3), ('A1D10', .2)], [('D101D100', .6), ('D10D1', .4)]):
+        spec = dict(wide)
+        spec['grammar'] = gr
+        spec['prince'] = [('D10', .3), ('D100', .25), ('A105', .15), ('D1', .1), ('D101', .1), ('A10', .05), ('A1', .05)]
+        yield spec
     # structure lists that are NOT in descending order of probability (a merged or hand-edited grammar.txt; edit_rules.py keeps whatever order it
     # finds): the queue owes its order to the heap, not to the order of the file
     for term in TERMINALS[:2]:
